@@ -27,7 +27,11 @@ def rand_grid(rng, n, kind=None):
         g = Numerics.exponential_grid(n, crwd=rng.choice([2., 8., 20.]))
     elif kind == 'crowded':
         # first / last interior point within 1e-9 .. 1e-11 of the boundary (as exponential_grid with a large crowding gives)
-        g = Numerics.exponential_grid(n, crwd=rng.choice([1.05, 1.15, 1.25]) * 20.0 / (1.0 - 2.0 / (n - 1)))
+        if n >= 5:
+            g = Numerics.exponential_grid(n, crwd=rng.choice([1.05, 1.15, 1.25]) * 20.0 / (1.0 - 2.0 / (n - 1)))
+        else:       # too few points for the exponential formula: put the interior point(s) next to the boundary directly
+            eps_ = rng.choice([1e-9, 1e-10, 3e-11])
+            g = np.array([0.0, eps_, 1.0]) if n == 3 else np.array([0.0, eps_, 1.0 - eps_, 1.0])
     elif kind == 'quadratic' and n >= 4:
         if n >= 20:
             g = Numerics.quadratic_grid(n)
